@@ -1383,6 +1383,11 @@ def _generate_constructor(
     # Nonreentrant lock
     codegen_ctx.emit_nonreentrant_lock(func_t)
 
+    # a `return` statement in the constructor body also deploys
+    codegen_ctx.ctor_epilogue = lambda: _emit_deploy_epilogue(
+        builder, runtime_codesize, immutables_len, codegen_ctx.immutables_alloca
+    )
+
     # Constructor body
     for stmt in func_ast.body:
         Stmt(stmt, codegen_ctx).lower()
